@@ -1,0 +1,18 @@
+//go:build verif
+
+// Contracts for package maps, checked by /verif (govc). Comment-only file.
+package maps
+
+// Keys: the keys of the map, each exactly once, in strictly increasing order (hence a function of the
+// map's contents alone: two strictly increasing sequences with the same elements are equal, M2).
+//@ func Keys pure
+//@   property C08 C09 C11
+//@   ensures [nonnil] result != nil
+//@   ensures [sound] forall i int :: 0 <= i && i < len(result) ==> result[i] in input
+//@   ensures [complete] forall k K :: k in input ==> (exists i int :: 0 <= i && i < len(result) && result[i] == k)
+//@   ensures [strictly_increasing] forall i int, j int :: 0 <= i && i < j && j < len(result) ==> result[i] < result[j]
+//@   loop 1
+//@     invariant [nonnil] keys != nil
+//@     invariant [sound] forall i int :: 0 <= i && i < len(keys) ==> keys[i] in visited
+//@     invariant [complete] forall k K :: k in visited ==> (exists i int :: 0 <= i && i < len(keys) && keys[i] == k)
+//@     invariant [distinct] forall i int, j int :: 0 <= i && i < j && j < len(keys) ==> keys[i] != keys[j]
